@@ -426,7 +426,7 @@ def tsqr(data, compute_svd=False, _max_vchunk_size=None):
             q_chunks = (
                 data.chunks
                 if data.shape[0] >= data.shape[1]
-                else (data.chunks[0], data.chunks[0])
+                else (data.chunks[0], (data.shape[0],))
             )
             r_shape = (n, n) if data.shape[0] >= data.shape[1] else data.shape
             r_chunks = r_shape
